@@ -2518,9 +2518,12 @@ evbuffer_write_sendfile(struct evbuffer *buffer, evutil_socket_t dest_fd,
 	    EVBUFFER_CHAIN_EXTRA(struct evbuffer_chain_file_segment,
 		chain);
 	const int source_fd = info->segment->fd;
+	/* never send more than the caller asked for */
+	const size_t to_send = (size_t)howmuch < chain->off ?
+	    (size_t)howmuch : chain->off;
 #if defined(SENDFILE_IS_MACOSX) || defined(SENDFILE_IS_FREEBSD)
 	int res;
-	ev_off_t len = chain->off;
+	ev_off_t len = to_send;
 #elif defined(SENDFILE_IS_LINUX) || defined(SENDFILE_IS_SOLARIS)
 	ev_ssize_t res;
 	off_t offset = chain->misalign;
@@ -2535,13 +2538,13 @@ evbuffer_write_sendfile(struct evbuffer *buffer, evutil_socket_t dest_fd,
 
 	return (len);
 #elif defined(SENDFILE_IS_FREEBSD)
-	res = sendfile(source_fd, dest_fd, chain->misalign, chain->off, NULL, &len, 0);
+	res = sendfile(source_fd, dest_fd, chain->misalign, to_send, NULL, &len, 0);
 	if (res == -1 && !EVUTIL_ERR_RW_RETRIABLE(errno))
 		return (-1);
 
 	return (len);
 #elif defined(SENDFILE_IS_LINUX)
-	res = sendfile(dest_fd, source_fd, &offset, chain->off);
+	res = sendfile(dest_fd, source_fd, &offset, to_send);
 	if (res == -1 && EVUTIL_ERR_RW_RETRIABLE(errno)) {
 		/* if this is EAGAIN or EINTR return 0; otherwise, -1 */
 		return (0);
@@ -2550,7 +2553,7 @@ evbuffer_write_sendfile(struct evbuffer *buffer, evutil_socket_t dest_fd,
 #elif defined(SENDFILE_IS_SOLARIS)
 	{
 		const off_t offset_orig = offset;
-		res = sendfile(dest_fd, source_fd, &offset, chain->off);
+		res = sendfile(dest_fd, source_fd, &offset, to_send);
 		if (res == -1 && EVUTIL_ERR_RW_RETRIABLE(errno)) {
 			if (offset - offset_orig)
 				return offset - offset_orig;
